@@ -135,7 +135,8 @@ DEFAULT_CONFIRM = {
     "c01_r6rs_char": ("chars",), "c02_elisp_char": ("chars",),
     "c03_kernel_totality": ("strings", "chars", "truncation", "tokens"), "c19_kernel_eof": ("truncation", "strings", "chars"),
     "c08_token_dispatch": ("tokens", "numbers"), "c08_list_protocol": ("lists", "tokens"), "c03_builder_depth": ("lists",),
-    "c01_byte_list": ("lists",), "c10_builder_lockstep": ("lists_datum", "tokens_datum", "lists", "tokens"), "c10_top_lockstep": ("lists_datum", "tokens_datum", "lists", "toplevel"),
+    "c01_byte_list": ("lists",), "c10_builder_lockstep": ("value_vs_datum", "lists_datum", "tokens_datum", "lists", "tokens"),
+    "c10_top_lockstep": ("value_vs_datum", "lists_datum", "tokens_datum", "lists", "toplevel"),
     "c12_whitespace": ("lists", "toplevel"), "c12_adapters": ("toplevel", "lists"),
     "c19_tables": ("truncation",), "c19_truncation_numbers": ("truncation", "numbers"), 
     "c03_depth_next_value": ("lists",), "c03_depth_next_datum": ("lists",), "c03_initial_depth": ("lists",),
